@@ -504,6 +504,47 @@ func main() {
 		}
 		fmt.Fprintf(&b, "/-- the doc comment of `ClusterInfo.Sync` says it is only called from one thread (it takes no lock) -/\n")
 		fmt.Fprintf(&b, "def syncDocumentedSingleThreaded : Bool := %v\n", strings.Contains(doc, "single thread"))
+		// ---- pkg/syncqueue/queue.go: the requeue path. The controller answers every failure with RequeueAfter; the model
+		// (and "once nothing is pending") rests on such an item being delivered again, however often it failed before.
+		// processNextWorkItem re-adds it with EnqueueAfter (AddAfter), which does not go through the rate limiter, so
+		// NumRequeues never grows and MaxRequeueTimes is never reached. The fact: outside the `if err != nil` branch (the
+		// handler-error path) nothing in processNextWorkItem counts a requeue (When / AddRateLimited / EnqueueRateLimited).
+		const qfile = "pkg/syncqueue/queue.go"
+		qf := g.ParseFile(qfile)
+		pn := lib.FuncDecl(qf, "SyncQueue", "processNextWorkItem")
+		if pn == nil {
+			lib.Fatalf("SyncQueue.processNextWorkItem not found")
+		}
+		counted, sawEnqueueAfter := false, false
+		var scan func(n ast.Node)
+		scan = func(n ast.Node) {
+			ast.Inspect(n, func(x ast.Node) bool {
+				if ifs, ok := x.(*ast.IfStmt); ok {
+					if be, ok := ifs.Cond.(*ast.BinaryExpr); ok && selName(be.X) == "err" && be.Op == token.NEQ && selName(be.Y) == "nil" {
+						if ifs.Else != nil {
+							scan(ifs.Else)
+						}
+						return false // the handler-error path counts on purpose (maxErrRetries)
+					}
+				}
+				if c, ok := x.(*ast.CallExpr); ok {
+					switch selName(c.Fun) {
+					case "When", "AddRateLimited", "EnqueueRateLimited":
+						counted = true
+					case "EnqueueAfter", "AddAfter":
+						sawEnqueueAfter = true
+					}
+				}
+				return true
+			})
+		}
+		scan(pn.Body)
+		if !sawEnqueueAfter {
+			lib.Fatalf("processNextWorkItem no longer re-adds a requeued item with EnqueueAfter/AddAfter: the requeue path changed shape")
+		}
+		fmt.Fprintf(&b, "/-! %s -/\n", qfile)
+		fmt.Fprintf(&b, "/-- the RequeueAfter path of processNextWorkItem counts requeues towards MaxRequeueTimes (so that an item is given up) -/\n")
+		fmt.Fprintf(&b, "def requeueAfterIsCounted : Bool := %v\n", counted)
 		b.WriteString("end KG.Gen.C11\n")
 		g.Emit("C11.lean", b.String())
 	})
